@@ -43,10 +43,45 @@ class ExtractError(Exception):
 # source files and item lookup
 
 
+EXPANDED = "<expanded>"
+_EXPANDED_CACHE = {}
+
+
+def expand_crate(repo):
+    """R13: the crate after macro expansion (`rustc -Zunpretty=expanded` through cargo, nightly
+    toolchain, offline), produced on every run from a scratch copy of the repository's current
+    working tree.  Used only for items that `macro_rules!` invocations generate; everything else
+    is taken from the source files themselves."""
+    if repo in _EXPANDED_CACHE:
+        return _EXPANDED_CACHE[repo]
+    import shutil, subprocess, tempfile
+    work = tempfile.mkdtemp(prefix="verif-expand-")
+    try:
+        dst = os.path.join(work, "crate")
+        shutil.copytree(repo, dst, ignore=shutil.ignore_patterns("target", ".git"))
+        cache = os.environ.get("VERIF_EXPAND_TARGET") or os.path.join(os.path.dirname(os.path.dirname(os.path.abspath(__file__))), ".cache", "expand-target")
+        os.makedirs(cache, exist_ok=True)
+        env = dict(os.environ, CARGO_TARGET_DIR=cache, CARGO_NET_OFFLINE="true")
+        p = subprocess.run(["cargo", "+nightly", "rustc", "--offline", "--lib", "--", "-Zunpretty=expanded"], cwd=dst, capture_output=True, text=True, env=env, timeout=1200)
+        if p.returncode != 0 or not p.stdout.strip():
+            raise ExtractError("macro expansion of the crate failed (cargo +nightly rustc -- -Zunpretty=expanded): %s" % p.stderr[-800:])
+        _EXPANDED_CACHE[repo] = p.stdout
+        return p.stdout
+    finally:
+        shutil.rmtree(work, ignore_errors=True)
+
+
 class Source:
     def __init__(self, repo, rel):
         self.rel = rel
         self.path = os.path.join(repo, rel)
+        if rel == EXPANDED:
+            self.text = expand_crate(repo)
+            try:
+                self.toks = tokenize(self.text)
+            except LexError as e:
+                raise ExtractError("cannot tokenize the expanded crate: %s" % e)
+            return
         try:
             with open(self.path, encoding="utf-8") as f:
                 self.text = f.read()
@@ -750,21 +785,29 @@ def rule_R2(ed, src, parts, method, ordinal):
     j = dot_k - 1
     while toks[j].kind in ("ws", "comment"):
         j -= 1
-    recv = src.text[toks[r0].start:toks[j].end]
+    recv_end = toks[j].end
     end = toks[pclose].end
+    # the closure body itself is left in place (annotations may land inside it): only the text
+    # around it is rewritten
+    jb = pclose - 1
+    while toks[jb].kind in ("ws", "comment"):
+        jb -= 1
+    body_end = toks[jb].end
     if method == "map":
-        new = "match %s { Some(%s) => Some(%s), None => None }" % (recv, pat, body)
+        head, tail = " { Some(%s) => Some(" % pat, "), None => None }"
     elif method == "and_then":
-        new = "match %s { Some(%s) => %s, None => None }" % (recv, pat, body)
+        head, tail = " { Some(%s) => " % pat, ", None => None }"
     elif method == "map_err":
         q = _next_sig(toks, pclose + 1, bc)
         if toks[q].text != "?":
             raise ExtractError("R2 map_err without `?` (%s:%d)" % (src.rel, src.line_of(toks[k].start)))
         end = toks[q].end
-        new = "match %s { Ok(verif_ok) => verif_ok, Err(%s) => return Err(%s) }" % (recv, pat, body)
+        head, tail = " { Ok(verif_ok) => verif_ok, Err(%s) => return Err(" % pat, ") }"
     else:
         raise ExtractError("R2: unknown method %s" % method)
-    ed.replace(toks[r0].start, end, new, "R2", "%s with closure -> match" % method)
+    ed.insert(toks[r0].start, "match ", "R2", "%s with closure -> match" % method)
+    ed.replace(recv_end, toks[body_lo].start, head, "R2", "%s with closure -> match" % method)
+    ed.replace(body_end, end, tail, "R2", "%s with closure -> match" % method)
 
 
 def rule_R9(ed, src, parts, ordinal):
